@@ -291,14 +291,16 @@ func (h *Hook) OnRetainMessage(cl *mqtt.Client, pk packets.Packet, r int64) {
 
 	props := pk.Properties.Copy(false)
 	in := &storage.Message{
-		ID:          retainedKey(pk.TopicName),
-		T:           storage.RetainedKey,
-		FixedHeader: pk.FixedHeader,
-		TopicName:   pk.TopicName,
-		Payload:     pk.Payload,
-		Created:     pk.Created,
-		Client:      cl.ID,
-		Origin:      pk.Origin,
+		ID:              retainedKey(pk.TopicName),
+		T:               storage.RetainedKey,
+		FixedHeader:     pk.FixedHeader,
+		TopicName:       pk.TopicName,
+		Payload:         pk.Payload,
+		Created:         pk.Created,
+		Expiry:          pk.Expiry,
+		ProtocolVersion: pk.ProtocolVersion,
+		Client:          cl.ID,
+		Origin:          pk.Origin,
 		Properties: storage.MessageProperties{
 			PayloadFormat:          props.PayloadFormat,
 			PayloadFormatFlag:      props.PayloadFormatFlag,
@@ -324,16 +326,18 @@ func (h *Hook) OnQosPublish(cl *mqtt.Client, pk packets.Packet, sent int64, rese
 
 	props := pk.Properties.Copy(false)
 	in := &storage.Message{
-		ID:          inflightKey(cl, pk),
-		T:           storage.InflightKey,
-		Client:      cl.ID,
-		Origin:      pk.Origin,
-		PacketID:    pk.PacketID,
-		FixedHeader: pk.FixedHeader,
-		TopicName:   pk.TopicName,
-		Payload:     pk.Payload,
-		Sent:        sent,
-		Created:     pk.Created,
+		ID:              inflightKey(cl, pk),
+		T:               storage.InflightKey,
+		Client:          cl.ID,
+		Origin:          pk.Origin,
+		PacketID:        pk.PacketID,
+		FixedHeader:     pk.FixedHeader,
+		TopicName:       pk.TopicName,
+		Payload:         pk.Payload,
+		Sent:            sent,
+		Created:         pk.Created,
+		Expiry:          pk.Expiry,
+		ProtocolVersion: pk.ProtocolVersion,
 		Properties: storage.MessageProperties{
 			PayloadFormat:          props.PayloadFormat,
 			PayloadFormatFlag:      props.PayloadFormatFlag,
